@@ -91,6 +91,11 @@ coq_files_of = coq_list
 
 def run_stream(prop, res, sc, workdir):
     n = sc.quick if res.tier == "quick" else sc.thorough
+    k = getattr(res, "escalate", 1.0)
+    if res.tier == "quick" and k > 1.0:
+        # change-directed depth (lib/srcpins.py): a source file relevant to this property differs from the
+        # pinned tree, so the stream sees k times the cases (never beyond the thorough count)
+        n = max(n, min(int(n * k), max(sc.thorough, n)))
     prefix = os.path.join(workdir, sc.name)
     info = {"stream": sc.name, "requested": n}
     t0 = time.time()
@@ -396,6 +401,12 @@ def run(prop, res):
     checker_cmd = (f"make -C coq -j16 {' '.join(r[:-2] + '.vo' for r in rels)} && "
                    + " && ".join(f"coqc -Q coq Chess3 coq/{r}" for r in rels) +
                    "  (Print Assumptions under every theorem; hygiene grep over coq/**/*.v)")
+    import srcpins
+    res.escalate, res.changed = srcpins.escalation(prop.pid, V.REPO) if res.tier == "quick" else (1.0, [])
+    if res.escalate > 1.0:
+        V.log(f"source differs from the pinned tree in {', '.join(res.changed[:6])}: stream case counts x{res.escalate:g}")
+        res.notes.append(f"change-directed depth: {', '.join(res.changed[:12])} differ(s) from lib/source_pins.json; "
+                         f"quick-tier case counts of every stream multiplied by {res.escalate:g}")
     proofs_ok = check_obligations(prop, res)
     bad = V.hygiene()
     if bad:
